@@ -480,7 +480,7 @@ def run_case(case: dict, codecs=("abstract", "legacy")) -> CaseResult:
                                       dict(codec="abstract", err=type(e).__name__, cause=cause_of(e, used))))
             if dec is not None:
                 res.fails += compare(ctx, seq, dec, case, "abstract", res)
-                if case["device"] != "custom" and not res.fails:
+                if case["device"] != "custom" and not res.fails and seq.is_parametrized():
                     # the decoded sequence (every object of which was made by the deserializer, with keyword
                     # arguments) through the legacy codec
                     try:
